@@ -88,8 +88,11 @@ func monitor(c Case, o Outcome, cap int) []Problem {
 					b.dueIdx = i
 				}
 			}
-		case "scall":
+		case "scall", "scalld":
 			subs = append(subs, &subObs{scallIdx: i, sretIdx: -1, cancelIdx: -1, closedIdx: -1})
+			if e.K == "scalld" { // the context had ended (or was ending) when Subscribe was called
+				subs[len(subs)-1].cancelIdx = i
+			}
 			pendingSret = append(pendingSret, len(subs)-1)
 		case "sret":
 			if len(pendingSret) > 0 {
@@ -260,8 +263,8 @@ func monitor(c Case, o Outcome, cap int) []Problem {
 			if cret >= 0 && ccall > s.sretIdx && s.closedIdx < 0 {
 				add("channel-not-closed-after-close", "Close returned but the channel of subscriber %d (subscribed before Close was called) is not closed", si)
 			}
-			if cret < 0 && s.cancelIdx >= 0 && s.closedIdx < 0 {
-				add("channel-not-closed-after-cancel", "the context of subscriber %d ended but its channel was never closed", si)
+			if s.cancelIdx >= 0 && s.closedIdx < 0 && (ccall < 0 || ccall > s.sretIdx) {
+				add("channel-not-closed-after-cancel", "the context of subscriber %d ended (Subscribe had returned before any Close call) but its channel was never closed", si)
 			}
 		}
 	}
